@@ -38,6 +38,8 @@ func ErrByName(name string) error {
 		return syscall.ENOENT
 	case "EISDIR":
 		return syscall.EISDIR
+	case "EEXIST":
+		return syscall.EEXIST
 	case "UNEXPECTED_EOF":
 		return io.ErrUnexpectedEOF
 	}
@@ -286,6 +288,9 @@ func (r *Reader) Read(p []byte) (int, error) {
 type Node struct {
 	Data  []byte
 	IsDir bool
+	// Stream: not a regular file (a pipe, a device): its size is reported as 0,
+	// the bytes are there to be read all the same
+	Stream bool
 }
 
 // Disk is the simulated file system: a flat name → node map plus per-name
@@ -477,7 +482,12 @@ type fileInfo struct {
 }
 
 func (fi fileInfo) Name() string { return fi.name }
-func (fi fileInfo) Size() int64  { return int64(len(fi.node.Data)) }
+func (fi fileInfo) Size() int64 {
+	if fi.node.Stream {
+		return 0
+	}
+	return int64(len(fi.node.Data))
+}
 func (fi fileInfo) Mode() os.FileMode {
 	if fi.node.IsDir {
 		return os.ModeDir | 0755
@@ -573,6 +583,10 @@ func OpenFile(name string, flag int, perm os.FileMode) (*File, error) {
 	node := d.Nodes[name]
 	if node == nil && flag&os.O_CREATE == 0 {
 		return nil, pathErr("open", name, "ENOENT")
+	}
+	if node != nil && flag&os.O_EXCL != 0 && flag&os.O_CREATE != 0 {
+		W.Event("openfile %s err=EEXIST", name)
+		return nil, pathErr("open", name, "EEXIST")
 	}
 	if flag&os.O_TRUNC != 0 || node == nil {
 		return Create(name)
